@@ -70,7 +70,7 @@ ROUND = [0, 1, 2, 3, 4, 8, 9, 10, 11, 12]
 def imm_values(name, m, i):
     an = m.args[i][1]
     if an == 'rounding':
-        return [4]
+        return [4, 8, 9, 10, 11]
     if re.search(r'_cmpp[sd]', name):
         return list(range(32))
     if re.search(r'_u?cmp[bwdq]\d+_mask', name):
